@@ -125,6 +125,12 @@ type FDesc struct {
 	RW     string `json:"rw"`   // "" | <- | create | update | false | create,update
 	PK     bool   `json:"pk"`
 	Auto   string `json:"auto"` // "" | create | update
+	// generated types: Ptr = the field is a pointer (*int64 / *string / *bool; kind bool exists as a pointer only);
+	// Place = where the field lives in the Go struct: "" top level (after the key) | first the struct's first
+	// field (before the key) | emb inside an anonymous embedded struct | embtag inside a struct field tagged
+	// `gorm:"embedded"`
+	Ptr   bool   `json:"ptr,omitempty"`
+	Place string `json:"place,omitempty"`
 }
 type TDesc struct {
 	Table   string
@@ -270,12 +276,14 @@ func dynType(table string, fields []FDesc) TDesc {
 	if t, ok := dynCache[key]; ok {
 		return t
 	}
-	var sf []reflect.StructField
+	var sf, first, emb, box []reflect.StructField
 	for _, f := range fields {
 		var ty reflect.Type
 		switch {
 		case f.PK:
 			ty = reflect.TypeOf(uint(0))
+		case f.Kind == "bool":
+			ty = reflect.TypeOf(false)
 		case f.Kind == "str":
 			ty = reflect.TypeOf("")
 		case f.Kind == "time" && f.GoType == "ptime":
@@ -292,7 +300,27 @@ func dynType(table string, fields []FDesc) TDesc {
 		} else if f.Name == "UpdatedAt" {
 			def = "updated_at"
 		}
-		sf = append(sf, reflect.StructField{Name: f.Name, Type: ty, Tag: reflect.StructTag(`gorm:"` + gormTag(f, def) + `"`)})
+		if f.Ptr {
+			ty = reflect.PtrTo(ty)
+		}
+		fld := reflect.StructField{Name: f.Name, Type: ty, Tag: reflect.StructTag(`gorm:"` + gormTag(f, def) + `"`)}
+		switch f.Place {
+		case "first":
+			first = append(first, fld)
+		case "emb":
+			emb = append(emb, fld)
+		case "embtag":
+			box = append(box, fld)
+		default:
+			sf = append(sf, fld)
+		}
+	}
+	sf = append(first, sf...)
+	if len(emb) > 0 {
+		sf = append(sf, reflect.StructField{Name: "Emb", Type: reflect.StructOf(emb), Anonymous: true})
+	}
+	if len(box) > 0 {
+		sf = append(sf, reflect.StructField{Name: "Box", Type: reflect.StructOf(box), Tag: `gorm:"embedded"`})
 	}
 	t := TDesc{Table: table, Type: reflect.StructOf(sf), Fields: fields, Dynamic: true}
 	dynCache[key] = t
@@ -304,6 +332,37 @@ func typeOf(in Input) TDesc {
 		return dynType(in.DynTable, in.Dyn)
 	}
 	return types[in.Type]
+}
+
+// modelOf: the type of the statement's Model value: the table's type, a narrower view of it (Input.View), or
+// none at all (Input.NoSchema: no fields)
+func modelOf(in Input) TDesc {
+	t := typeOf(in)
+	switch {
+	case in.NoSchema:
+		return TDesc{Table: t.Table, Dynamic: true}
+	case in.View != nil:
+		var fs []FDesc
+		for _, j := range in.View {
+			fs = append(fs, t.Fields[j])
+		}
+		return dynType(t.Table, fs)
+	}
+	return t
+}
+func inView(in Input, j int) bool {
+	if in.NoSchema {
+		return false
+	}
+	if in.View == nil {
+		return true
+	}
+	for _, k := range in.View {
+		if k == j {
+			return true
+		}
+	}
+	return false
 }
 
 // convType picks the Go type of a conventional (by name) or tagged tracked time field: every admissible one
@@ -352,13 +411,34 @@ func genType(r *lib.Rng) (string, []FDesc) {
 		// batch upserts; reported to the lead as a crash of the read-back path, not a C10 matter)
 		f.DBDef = f.Dash == "" && f.RO != "->:false" && r.Chance(1, 4)
 		f.LitDef = !f.DBDef && r.Chance(1, 5)
+		// pointer-typed fields (*int64, *string, *bool; no defaults on them) and fields that live in an embedded
+		// struct (anonymous, or a struct field tagged `embedded`): gorm reaches those through its general accessor
+		if r.Chance(1, 4) {
+			f.Ptr, f.DBDef, f.LitDef = true, false, false
+			if r.Chance(1, 3) {
+				f.Kind = "bool"
+			}
+		}
+		switch {
+		case r.Chance(1, 5):
+			f.Place = "emb"
+		case r.Chance(1, 8):
+			f.Place = "embtag"
+		}
 		fs = append(fs, f)
 	}
+	if r.Chance(1, 4) { // one data field is the struct's FIRST field (before the key)
+		fs[1+r.Intn(n)].Place = "first"
+	}
+	embTracked := r.Chance(1, 4) // the tracked time fields live in an embedded struct (like gorm.Model's)
 	if r.Chance(2, 3) {
 		f := FDesc{Name: "CreatedAt", Col: "created_at", Kind: lib.Pick(r, []string{"time", "time", "unix"}), Auto: "create"}
 		convType(r, &f)
 		if r.Chance(1, 3) {
 			perm(&f)
+		}
+		if embTracked {
+			f.Place = "emb"
 		}
 		fs = append(fs, f)
 	}
@@ -367,6 +447,9 @@ func genType(r *lib.Rng) (string, []FDesc) {
 		convType(r, &f)
 		if r.Chance(1, 3) {
 			perm(&f)
+		}
+		if embTracked {
+			f.Place = "emb"
 		}
 		fs = append(fs, f)
 	}
@@ -395,6 +478,7 @@ type PV struct {
 	Field int    `json:"field"`
 	Spell string `json:"spell,omitempty"`
 	Zero  bool   `json:"zero"`
+	Nil   bool   `json:"nil,omitempty"` // pointer fields: the payload's pointer is nil (else it points to the zero / non-zero value)
 }
 type Row struct {
 	ID int64 `json:"id"` // 0 = let the database assign
@@ -427,6 +511,11 @@ type Input struct {
 	CloneStep string `json:"clone_step,omitempty"`
 	CloneAt   string `json:"clone_at,omitempty"`
 	Attrs     *Row   `json:"attrs,omitempty"`
+	// map updates whose keys the statement's schema does not know: View = the fields (indexes, key included) of
+	// the narrower struct passed as Model (the other columns of the table are raw keys); NoSchema = no Model at
+	// all, Table(t).Where(..).[Select][Omit].Updates(map)
+	View     []int `json:"view,omitempty"`
+	NoSchema bool  `json:"no_schema,omitempty"`
 }
 type Cell struct {
 	Row  int64  `json:"row"`
@@ -462,6 +551,8 @@ func fmtTime(t time.Time) string { return t.UTC().Format(time.RFC3339Nano) }
 // value of field j (kind k) in the payload: a non-zero value unlike anything stored, or the zero value
 func payValue(f FDesc, j int, zero bool) interface{} {
 	switch f.Kind {
+	case "bool": // a *bool payload is nil or points to false (stored rows hold true)
+		return false
 	case "int", "unix", "milli", "nano":
 		if zero {
 			return int64(0)
@@ -481,19 +572,33 @@ func payValue(f FDesc, j int, zero bool) interface{} {
 
 // mapValue: the value a map payload (or Update(col, v)) carries for field j: like the struct payload, the zero
 // value of a *time.Time field is the nil pointer
-func mapValue(f FDesc, j int, zero bool) interface{} {
-	if zero && f.GoType == "ptime" {
+func mapValue(f FDesc, j int, pv PV) interface{} {
+	if pv.Zero && f.GoType == "ptime" {
 		return (*time.Time)(nil)
 	}
-	return payValue(f, j, zero)
+	if pv.Nil {
+		return nil
+	}
+	return payValue(f, j, pv.Zero)
+}
+
+// gormZero: is the payload's value of field f zero for gorm (a pointer field: nil; else the zero value)?
+func gormZero(f FDesc, pv PV) bool {
+	if f.Ptr {
+		return pv.Nil
+	}
+	return pv.Zero
 }
 
 // payRepr: how the payload's value of field j reads back (the zero value of a *time.Time is NULL)
-func payRepr(f FDesc, j int, zero bool) string {
-	if zero && f.GoType == "ptime" {
+func payRepr(f FDesc, j int, pv PV) string {
+	if pv.Zero && f.GoType == "ptime" || pv.Nil {
 		return "NULL"
 	}
-	return repr(payValue(f, j, zero))
+	if f.Kind == "bool" {
+		return "0"
+	}
+	return repr(payValue(f, j, pv.Zero))
 }
 func repr(v interface{}) string {
 	switch x := v.(type) {
@@ -508,6 +613,8 @@ func repr(v interface{}) string {
 }
 func storedValue(f FDesc, j int, id int64) interface{} {
 	switch f.Kind {
+	case "bool":
+		return int64(1)
 	case "int", "unix", "milli", "nano":
 		return int64(100 + 10*id + int64(j))
 	case "str":
@@ -669,8 +776,20 @@ func buildStruct(t TDesc, r Row) reflect.Value {
 	v.FieldByName("ID").SetUint(uint64(r.ID))
 	for _, pv := range r.PV {
 		f := t.Fields[pv.Field]
-		fv := v.FieldByName(f.Name)
+		fv := v.FieldByName(f.Name) // (promoted through the anonymous embedded struct)
+		if f.Place == "embtag" {
+			fv = v.FieldByName("Box").FieldByName(f.Name)
+		}
+		if f.Ptr {
+			if pv.Nil {
+				continue
+			}
+			fv.Set(reflect.New(fv.Type().Elem()))
+			fv = fv.Elem()
+		}
 		switch x := payValue(f, pv.Field, pv.Zero).(type) {
+		case bool:
+			fv.SetBool(x)
 		case int64:
 			if k := fv.Kind(); k == reflect.Uint || k == reflect.Uint32 || k == reflect.Uint64 {
 				fv.SetUint(uint64(x))
@@ -712,7 +831,7 @@ func buildMap(t TDesc, r Row) map[string]interface{} {
 		if pv.Spell == "field" {
 			k = f.Name
 		}
-		m[k] = formed(pv, mapValue(f, pv.Field, pv.Zero))
+		m[k] = formed(pv, mapValue(f, pv.Field, pv))
 	}
 	return m
 }
@@ -740,17 +859,24 @@ func run(e *env, in Input) (o Obs) {
 		return o
 	}
 	// gorm's own reading of the tags (compared with the model's perm_of)
-	st := &gorm.Statement{DB: e.db}
-	if t.Dynamic {
-		st.Table = t.Table
-	}
-	if err := st.Parse(reflect.New(t.Type).Interface()); err != nil {
-		o.Setup = err.Error()
-		return o
-	}
-	for _, f := range t.Fields {
-		pf := st.Schema.FieldsByName[f.Name]
-		o.Parsed = append(o.Parsed, PF{f.Name, pf.DBName, pf.Creatable, pf.Updatable, pf.Readable})
+	mt := modelOf(in)
+	if !in.NoSchema {
+		st := &gorm.Statement{DB: e.db}
+		if mt.Dynamic {
+			st.Table = mt.Table
+		}
+		if err := st.Parse(reflect.New(mt.Type).Interface()); err != nil {
+			o.Setup = err.Error()
+			return o
+		}
+		for _, f := range mt.Fields {
+			pf := st.Schema.FieldsByName[f.Name]
+			if pf == nil {
+				o.Setup = "gorm parsed no field " + f.Name
+				return o
+			}
+			o.Parsed = append(o.Parsed, PF{f.Name, pf.DBName, pf.Creatable, pf.Updatable, pf.Readable})
+		}
 	}
 
 	tx := e.db.Session(&gorm.Session{})
@@ -758,6 +884,9 @@ func run(e *env, in Input) (o Obs) {
 		tx = tx.Table(t.Table)
 	}
 	model := reflect.New(t.Type)
+	if in.View != nil {
+		model = reflect.New(mt.Type)
+	}
 	model.Elem().FieldByName("ID").SetUint(uint64(in.ModelKey))
 	if isComposite(t) {
 		model.Elem().FieldByName("Locale").SetString(locales[in.ModelLoc])
@@ -771,6 +900,8 @@ func run(e *env, in Input) (o Obs) {
 		p := reflect.New(sl.Type())
 		p.Elem().Set(sl)
 		tx = tx.Model(p.Interface())
+	} else if in.NoSchema {
+		// no Model: the statement runs on Table(t.Table) alone
 	} else if isUpdate || in.Kind == "create_map" || in.Kind == "create_maps" || in.ChainModel {
 		tx = tx.Model(model.Interface())
 	}
@@ -909,7 +1040,7 @@ func run(e *env, in Input) (o Obs) {
 		if pv.Spell == "field" {
 			k = f.Name
 		}
-		res = tx.Update(k, formed(pv, mapValue(f, pv.Field, pv.Zero)))
+		res = tx.Update(k, formed(pv, mapValue(f, pv.Field, pv)))
 	case "update_column":
 		pv := in.Rows[0].PV[0]
 		f := t.Fields[pv.Field]
@@ -917,7 +1048,7 @@ func run(e *env, in Input) (o Obs) {
 		if pv.Spell == "field" {
 			k = f.Name
 		}
-		res = tx.UpdateColumn(k, formed(pv, mapValue(f, pv.Field, pv.Zero)))
+		res = tx.UpdateColumn(k, formed(pv, mapValue(f, pv.Field, pv)))
 	case "updates_struct", "update_columns_struct":
 		p := buildStruct(t, in.Rows[0])
 		var arg interface{} = p.Elem().Interface()
@@ -956,8 +1087,8 @@ func run(e *env, in Input) (o Obs) {
 		return o
 	}
 	// payload per row id (for the "pay" classification)
-	payOf := func(id int64) (map[int]bool, int64) { // field -> zero ; payload key
-		m := map[int]bool{}
+	payOf := func(id int64) (map[int]PV, int64) { // field -> payload entry ; payload key
+		m := map[int]PV{}
 		if len(in.Rows) == 0 {
 			return m, 0
 		}
@@ -979,7 +1110,7 @@ func run(e *env, in Input) (o Obs) {
 			pick = fresh[id-1001]
 		}
 		for _, pv := range pick.PV {
-			m[pv.Field] = pv.Zero
+			m[pv.Field] = pv
 		}
 		return m, pick.ID
 	}
@@ -994,10 +1125,22 @@ func run(e *env, in Input) (o Obs) {
 		}
 	}
 	sort.Slice(ids, func(i, j int) bool { return ids[i] < ids[j] })
+	// columns in the order of the model's fields, then the columns the model does not know, by name
+	var order, rest []int
+	for j := range t.Fields {
+		if inView(in, j) {
+			order = append(order, j)
+		} else {
+			rest = append(rest, j)
+		}
+	}
+	sort.Slice(rest, func(a, b int) bool { return t.Fields[rest[a]].Col < t.Fields[rest[b]].Col })
+	order = append(order, rest...)
 	for _, id := range ids {
 		old, existed := before[id]
 		pay, payID := payOf(id)
-		for j, f := range t.Fields {
+		for _, j := range order {
+			f := t.Fields[j]
 			nv := after[id][f.Col]
 			if existed {
 				if old[f.Col] == nv {
@@ -1015,7 +1158,7 @@ func run(e *env, in Input) (o Obs) {
 			kind := "oth"
 			if nv == nowRepr(f) {
 				kind = "now"
-			} else if z, ok := pay[j]; ok && nv == payRepr(f, j, z) {
+			} else if pv, ok := pay[j]; ok && nv == payRepr(f, j, pv) {
 				kind = "pay"
 			} else if f.PK && nv == fmt.Sprint(payID) {
 				kind = "pay"
@@ -1064,7 +1207,7 @@ func gPV(t TDesc, pv PV, asMap bool) string {
 	if asMap && pv.Spell != "field" {
 		k = f.Col
 	}
-	return lib.Pair(lib.Str(k), lib.Bool(pv.Zero))
+	return lib.Pair(lib.Str(k), lib.Bool(gormZero(f, pv)))
 }
 func gRow(t TDesc, r Row, asMap bool) string {
 	pvs := append([]PV(nil), r.PV...)
@@ -1136,7 +1279,7 @@ func term(in Input, o Obs) string {
 	if in.HasWhere {
 		where = "(Some " + lib.ZList(in.WhereIDs) + ")"
 	}
-	return lib.App("mk_case", lib.Str(t.Table), lib.ListOf(t.Fields, gField), gKind(in, t),
+	return lib.App("mk_case", lib.Str(t.Table), lib.ListOf(modelOf(in).Fields, gField), gKind(in, t),
 		lib.ListOf(in.Selects, func(s SItem) string { return gItem(t, s) }),
 		lib.ListOf(in.Omits, func(s SItem) string { return gItem(t, s) }),
 		lib.ListOf(in.Rows, func(r Row) string { return gRow(t, r, asMap) }),
@@ -1217,6 +1360,19 @@ func genItems(r *lib.Rng, t TDesc, n int, allowStar bool, edge bool) []SItem {
 	return out
 }
 
+// ptrState: a pointer field's payload is nil (1/3), points to the zero value (1/3) or to a non-zero value; a *bool
+// never points to true (the stored rows hold true, the write would not show)
+func ptrState(r *lib.Rng, f FDesc, pv *PV) {
+	if !f.Ptr {
+		return
+	}
+	pv.Nil = r.Chance(1, 3)
+	pv.Zero = r.Bool() || f.Kind == "bool"
+	if pv.Nil {
+		pv.Zero = true
+	}
+}
+
 // structRow: a payload with every non-key field, zero with probability pz; tracked time fields are
 // left zero (the usual way to use them) unless edge
 func structRow(r *lib.Rng, t TDesc, id int64, pzNum, pzDen int, edge bool) Row {
@@ -1227,7 +1383,9 @@ func structRow(r *lib.Rng, t TDesc, id int64, pzNum, pzDen int, edge bool) Row {
 		if f.Auto != "" && !(edge && r.Chance(1, 3)) {
 			zero = true
 		}
-		row.PV = append(row.PV, PV{Field: j, Zero: zero})
+		pv := PV{Field: j, Zero: zero}
+		ptrState(r, f, &pv)
+		row.PV = append(row.PV, pv)
 	}
 	return row
 }
@@ -1263,6 +1421,7 @@ func mapRow(r *lib.Rng, t TDesc, id int64, n int, edge bool) Row {
 		if mapRowUpdate && r.Chance(1, 4) {
 			pv.Form = lib.Pick(r, []string{"expr", "sub"})
 		}
+		ptrState(r, t.Fields[j], &pv)
 		row.PV = append(row.PV, pv)
 	}
 	return row
@@ -1418,7 +1577,9 @@ func genInput(r *lib.Rng, edge bool, dyn *Input) Input {
 				if r.Bool() {
 					sp = "field"
 				}
-				row.PV = append(row.PV, PV{Field: pv.Field, Spell: sp, Zero: r.Chance(1, 4)})
+				npv := PV{Field: pv.Field, Spell: sp, Zero: r.Chance(1, 4)}
+				ptrState(r, t.Fields[pv.Field], &npv)
+				row.PV = append(row.PV, npv)
 			}
 			in.Rows = append(in.Rows, row)
 		}
@@ -1528,6 +1689,52 @@ func genInput(r *lib.Rng, edge bool, dyn *Input) Input {
 				}
 			}
 		}
+		// map updates with keys the statement's schema does not know (1 in 4 on generated types): the Model is a
+		// narrower VIEW struct of the table (at least one given key is no field of it), or there is no Model at all
+		// (Table(t).Where(..).Updates(map)); Select / Omit keep their forms except "tbl.*" (and "*" in Omit)
+		if in.Dyn != nil && !comp && isMapKind(in.Kind) && len(in.Rows) == 1 && len(in.Rows[0].PV) > 0 && r.Chance(1, 4) {
+			pvs := in.Rows[0].PV
+			if r.Chance(1, 3) {
+				in.NoSchema = true
+			} else {
+				out := pvs[r.Intn(len(pvs))].Field
+				in.View = []int{0}
+				for _, j := range nonKey(t) {
+					if j != out && r.Chance(3, 5) {
+						in.View = append(in.View, j)
+					}
+				}
+			}
+			for i := range pvs {
+				if !inView(in, pvs[i].Field) {
+					pvs[i].Spell = "col" // a raw key is the column's name
+				}
+			}
+			if len(in.Selects) == 0 && len(in.Omits) == 0 || r.Chance(1, 3) { // a restricting Select / an Omit over the given keys
+				it := SItem{lib.Pick(r, []string{"col", "col", "tabcol"}), pvs[r.Intn(len(pvs))].Field}
+				if r.Chance(2, 3) {
+					in.Selects, in.Omits = []SItem{it}, nil
+					if r.Bool() {
+						in.Selects = append(in.Selects, SItem{"col", lib.Pick(r, nonKey(t))})
+					}
+				} else {
+					in.Selects, in.Omits = nil, []SItem{it}
+				}
+			}
+			fix := func(items []SItem, sel bool) {
+				for i := range items {
+					f := items[i].Form
+					if f == "tabstar" || (f == "star" && !sel) {
+						items[i].Form = "col"
+					}
+					if in.NoSchema && f != "col" && f != "unknown" && f != "weird" {
+						items[i].Form = "col" // without a schema a name is taken literally: plain column names only
+					}
+				}
+			}
+			fix(in.Selects, true)
+			fix(in.Omits, false)
+		}
 		// target rows: a strict subset through the model key and/or a Where
 		switch r.Intn(3) {
 		case 0:
@@ -1565,6 +1772,12 @@ func genInput(r *lib.Rng, edge bool, dyn *Input) Input {
 				in.ModelKey = 0
 			}
 			in.HasWhere = r.Chance(1, 3)
+		}
+		if in.NoSchema {
+			in.ModelKey, in.ModelSlice, in.HasWhere = 0, nil, true
+		}
+		if in.View != nil && in.ModelSlice != nil {
+			in.ModelSlice, in.ModelKey = nil, int64(1+r.Intn(4))
 		}
 		if in.HasWhere {
 			for _, id := range stored {
@@ -1608,7 +1821,7 @@ func genInput(r *lib.Rng, edge bool, dyn *Input) Input {
 	if in.Kind == "create_maps" && edge && r.Chance(1, 8) {
 		in.Rows = nil
 	}
-	if isUpd && !in.NoReturn && r.Chance(1, 4) {
+	if isUpd && !in.NoReturn && !in.NoSchema && r.Chance(1, 4) {
 		in.Returning = true
 	}
 	if isUpd && edge && r.Chance(1, 6) {
@@ -1643,7 +1856,7 @@ func shape(in Input) string {
 			fmt.Fprintf(&sb, "%d%s%s,", pv.Field, z, pv.Spell)
 		}
 	}
-	fmt.Fprintf(&sb, "|nr%v mp%v bm%s rt%v cl%s%s", in.NoReturn, in.MapPtr, in.BatchMode, in.Returning, in.CloneStep, in.CloneAt)
+	fmt.Fprintf(&sb, "|nr%v mp%v bm%s rt%v cl%s%s v%v ns%v", in.NoReturn, in.MapPtr, in.BatchMode, in.Returning, in.CloneStep, in.CloneAt, in.View, in.NoSchema)
 	fmt.Fprintf(&sb, "|k%d.%d%v|w%v%d|c%v", in.ModelKey, in.ModelLoc, in.ModelSlice, in.HasWhere, len(in.WhereIDs), in.Cols)
 	return sb.String()
 }
@@ -1742,6 +1955,29 @@ func main() {
 		out.Count("changed_cells", fmt.Sprint(len(o.Cells)))
 		out.Count("dialect_returning", fmt.Sprint(!in.NoReturn))
 		out.Count("clone_step", in.CloneStep+"@"+in.CloneAt)
+		if in.NoSchema {
+			out.Count("raw_keys", "no schema: "+in.Kind)
+		} else if in.View != nil {
+			out.Count("raw_keys", "view struct: "+in.Kind)
+		}
+		{
+			t := typeOf(in)
+			for _, row := range in.Rows {
+				for _, pv := range row.PV {
+					if f := t.Fields[pv.Field]; f.Ptr || f.Place != "" {
+						st := "value"
+						if f.Ptr {
+							st = map[bool]string{true: "nil", false: map[bool]string{true: "pointer to zero", false: "pointer to non-zero"}[pv.Zero]}[pv.Nil]
+						}
+						pl := f.Place
+						if pl == "" {
+							pl = "top"
+						}
+						out.Count("pointer_embedded_payload", fmt.Sprintf("%s %s: %s", map[bool]string{true: "map", false: "struct"}[isMapKind(in.Kind)], pl, st))
+					}
+				}
+			}
+		}
 		if in.Dyn != nil {
 			for _, f := range in.Dyn {
 				if f.Auto != "" {
@@ -1821,6 +2057,9 @@ func main() {
 		}
 		if lastKeyless(in) {
 			kind = "slice-last-keyless"
+		}
+		if in.View != nil || in.NoSchema {
+			kind = "raw-keys"
 		}
 		add(kind, in)
 	}
